@@ -15,6 +15,7 @@ type Ctx struct {
 	keyPats           []keyPattern
 	readers           map[string][]readerInfo
 	narrow            map[*types.TypeName]string
+	entryRoles        map[*ssa.Function]map[string]bool
 	initOnce          map[*ssa.Global]ssa.Value
 	transp            map[*ssa.Function]bool
 	narrowSrc         map[*types.TypeName]*types.Named
